@@ -76,3 +76,29 @@ From RS Require Import LoadStmts2 LoadFacts2.
 Theorem C17_load_depots : stmt_load_depots.
 Proof. exact load_depots. Qed.
 Print Assumptions C17_load_depots.
+
+(** REFERENCES (RawLoad.v): the instance as listed — every reference an identifier — is resolved inside the model, with the
+    loader's own lookups (HashMaps filled in listing order: the last entry of a repeated id wins; `find`: the first route
+    with the id, the first segment with the id INSIDE that route; routes resolved only when a departure uses them; index
+    panics for matrices smaller than `indices`).  For every listing whose references resolve the resolution succeeds, every
+    reference points to the record that carries the identifier, the dead-head matrices are read through `indices`
+    whatever its arrangement, the result is a valid index-based instance, and loading it never panics. *)
+From RS Require Import RawLoad RawLoadStmts RawLoadFacts.
+Theorem C17_references_resolve : stmt_resolve_total.
+Proof. exact resolve_total. Qed.
+Print Assumptions C17_references_resolve.
+Theorem C17_references_point_to_the_named_records : stmt_resolve_faithful.
+Proof. exact resolve_faithful. Qed.
+Print Assumptions C17_references_point_to_the_named_records.
+Theorem C17_valid_listing_gives_valid_instance : stmt_resolve_valid.
+Proof. exact resolve_valid. Qed.
+Print Assumptions C17_valid_listing_gives_valid_instance.
+Theorem C17_loading_a_valid_listing_never_panics : stmt_load_raw_total.
+Proof. exact load_raw_total. Qed.
+Print Assumptions C17_loading_a_valid_listing_never_panics.
+Theorem C17_dangling_reference_refused_unused_one_unnoticed : stmt_resolve_dangling.
+Proof. exact resolve_dangling. Qed.
+Print Assumptions C17_dangling_reference_refused_unused_one_unnoticed.
+Theorem C17_segment_ids_are_local_to_their_route : stmt_resolve_segment_ids_local.
+Proof. exact resolve_segment_ids_local. Qed.
+Print Assumptions C17_segment_ids_are_local_to_their_route.
